@@ -243,6 +243,7 @@ FINDING_TEXT = {
     "C01-skip-default-dict-leaf": "dump(skip_default=True) strips the entries a dict-typed leaf shares with its default; re-parse replaces the default",
     "C01-skip-default-equal-other-type": "dump(skip_default=True) drops a value that == its default although the type differs (1/True/1.0, -0.0/0.0)",
     "C01-union-serialisation": "Union serialisation keeps the first member whose serialiser does not raise (Enum / restricted types accept anything)",
+    "C01-decimal-via-float": "Decimal is serialised with float (see C20-decimal-via-float): a Decimal that float does not preserve re-parses differently",
     "C01-comments-requoted": "yaml_comments output is re-serialised by ruyaml (YAML 1.2): quotes needed by the YAML 1.1 loader are dropped",
     "C01-comments-float-digits": "yaml_comments output: ruyaml re-writes floats with fewer digits",
     "C01-comments-int-key": "yaml_comments: a str dict key that YAML 1.2 reads as int makes add_yaml_comments raise",
@@ -485,7 +486,8 @@ def variant_name(v):
 
 
 CLEAN_PROFILE = {"max_depth": 2, "union_family": False, "nonfinite": False, "p_default": 0.5, "dict_defaults": False, "mixed_literal": False}
-WIDE_PROFILE = {"max_depth": 3, "union_family": True, "nonfinite": True, "p_default": 0.5, "dict_defaults": True, "mixed_literal": True}
+WIDE_PROFILE = {"max_depth": 3, "union_family": True, "nonfinite": True, "p_default": 0.5, "dict_defaults": True, "mixed_literal": True,
+                "decimal_inexact": True}
 
 
 def enough(ctx):
